@@ -19,6 +19,7 @@ import (
 	"sort"
 	"strings"
 	"sync"
+	"syscall"
 	"time"
 
 	"github.com/emersion/go-ical"
@@ -406,6 +407,11 @@ func runDavSchedule(c *fw.Ctx, cfg schedCfg, idx int) {
 		}
 		c.Observe("schedules", "webdav schedules with all workers in one collection", 1)
 	}
+	// Solo reference for what the requests leave on disk besides names and
+	// contents: the permission bits of an uploaded file, a created collection
+	// and their copies, made by an identical handler alone, and the process
+	// file mode creation mask (process-wide state a request might touch).
+	soloModes, umaskBefore := soloDiskModes(c, idx), readUmask()
 	ov := newOverlap()
 	models := make([]map[string]string, cfg.N)
 	bads := make([][]mismatch, cfg.N)
@@ -432,6 +438,44 @@ func runDavSchedule(c *fw.Ctx, cfg schedCfg, idx int) {
 				map[string]interface{}{"config": cfg, "mismatch": b})
 		}
 		c.Eval(cfg.Steps + 1)
+	}
+	if u := readUmask(); u != umaskBefore {
+		c.Report(fmt.Sprintf("webdav|%s|process-umask-changed", cfg.Transport),
+			fmt.Sprintf("the process file mode creation mask was %04o before the concurrent requests and is %04o after them", umaskBefore, u),
+			map[string]interface{}{"config": cfg})
+		syscall.Umask(umaskBefore)
+	}
+	if soloModes != nil {
+		var odd []string
+		filepath.Walk(root, func(p string, fi os.FileInfo, err error) error {
+			if err != nil || p == root || strings.HasPrefix(filepath.Base(p), "prelude-") {
+				return nil
+			}
+			kind := "file"
+			if fi.IsDir() {
+				kind = "dir"
+			}
+			if rel, _ := filepath.Rel(root, p); shared && rel == "shared" {
+				return nil // made by the harness
+			}
+			if fi.Mode().IsRegular() || fi.IsDir() {
+				if !soloModes[kind][fi.Mode().Perm()] {
+					rel, _ := filepath.Rel(root, p)
+					odd = append(odd, fmt.Sprintf("%s %s has mode %04o", kind, rel, fi.Mode().Perm()))
+				}
+			}
+			return nil
+		})
+		c.Observe("disk_modes", "trees compared with the solo permission bits", 1)
+		if len(odd) > 0 {
+			sort.Strings(odd)
+			if len(odd) > 8 {
+				odd = odd[:8]
+			}
+			c.Report(fmt.Sprintf("webdav|%s|permission-bits-differ-from-solo", cfg.Transport),
+				fmt.Sprintf("resources created by concurrent requests carry other permission bits than the same requests leave alone (solo: %v): %v", soloModes, odd),
+				map[string]interface{}{"config": cfg, "odd": odd})
+		}
 	}
 	// final tree = union of the per-worker trees
 	snap, _ := mon.Snapshot(root)
@@ -477,6 +521,55 @@ func runDavSchedule(c *fw.Ctx, cfg schedCfg, idx int) {
 			fmt.Sprintf("after %d concurrent workers the directory differs from the union of their solo results: %v", cfg.N, diffs),
 			map[string]interface{}{"config": cfg, "diffs": diffs})
 	}
+}
+
+// readUmask reads the process file mode creation mask. Only called while no
+// request is in flight (the read is a set-and-restore).
+func readUmask() int {
+	u := syscall.Umask(0)
+	syscall.Umask(u)
+	return u
+}
+
+// soloDiskModes: the permission bits an identical handler, alone, leaves on an
+// uploaded file, a created collection, and on copies of both.
+func soloDiskModes(c *fw.Ctx, idx int) map[string]map[os.FileMode]bool {
+	root := filepath.Join(c.WorkDir, fmt.Sprintf("sched-solo-%d", idx))
+	os.RemoveAll(root)
+	if err := os.MkdirAll(root, 0755); err != nil {
+		return nil
+	}
+	defer os.RemoveAll(root)
+	h := &webdav.Handler{FileSystem: webdav.LocalFileSystem(root)}
+	do := func(method, target, dest string, body string) {
+		req := httptest.NewRequest(method, "http://dav.test"+target, strings.NewReader(body))
+		if dest != "" {
+			req.Header.Set("Destination", dest)
+		}
+		h.ServeHTTP(httptest.NewRecorder(), req)
+	}
+	do("MKCOL", "/d", "", "")
+	do("PUT", "/d/f", "", "x")
+	do("PUT", "/d/f", "", "replaced")
+	do("PUT", "/g", "", "y")
+	do("COPY", "/g", "/g2", "")
+	do("COPY", "/d", "/d2", "")
+	do("MOVE", "/g2", "/g3", "")
+	modes := map[string]map[os.FileMode]bool{"file": {}, "dir": {}}
+	filepath.Walk(root, func(p string, fi os.FileInfo, err error) error {
+		if err == nil && p != root {
+			if fi.IsDir() {
+				modes["dir"][fi.Mode().Perm()] = true
+			} else {
+				modes["file"][fi.Mode().Perm()] = true
+			}
+		}
+		return nil
+	})
+	if len(modes["file"]) == 0 || len(modes["dir"]) == 0 {
+		return nil
+	}
+	return modes
 }
 
 func recordOverlap(c *fw.Ctx, cfg schedCfg, ov *overlap) {
